@@ -196,7 +196,7 @@ def li_obligation(ctx, ph, st, p, i, tag):
         shape = None
     if shape is None:
         ctx.add(Obligation('%s/%s/li-shape#%d' % (fn, tag, i), list(p.pc), z3.BoolVal(False), 'INT', func=fn, kind='post',
-                           cover=False, meta={'replay': rp, 'props': ['C05'],
+                           cover=False, meta={'replay': rp, 'props': ['C05', 'C08'],
                                               'what': 'li does not expand to lui/addi or addi with %hi/%lo of its operand'}))
         return
     vt = v.t
